@@ -3,7 +3,7 @@ import os, re, json, string
 from .. import env, cli, histgen, session, wire
 from ..runner import Prop, Stage, Result
 
-PROFILE = dict(reuse=0.6, weights=dict(newer=4, delete=14, bind=14, message=46, server_event=8, sync=6, enum=6, title=6))
+PROFILE = dict(reuse=0.6, weights=dict(newer=4, delete=14, bind=14, message=46, server_event=8, sync=6, enum=14, title=6))
 MATCHER_ALPHA = '[]()!,.:=@#"*~ \t-_'
 WORDS = ['wl_surface', 'wl_*', 'commit', 'new', 'destroyed', 'nil', '5', '5a', '12B', 'A', 'B', 'x', '0', '1.5', '-1', 'inf', 'nan', '1e999', 'é', 'ß3', '3é', '@', 'unknown',
          '99999999999999999999', '0x10', 'name', 'id', '"s"', '""', "'", 'Ａ', '٣', '²']
@@ -131,7 +131,9 @@ ATOMS18 = ['wl_*', '*', '*_x', 'wl_surface', '5', '5a', '7B', '0', '-1', '1.5', 
            '1e999', 'inf', '99999999999999999999', '3é', 'é', '@5', '#5b', 'wl_a@5', '!', '',
            # strings as people paste them: paths, regex-looking text, escapes (complete and cut short), format directives
            '"dir\\"', '"C:\\Users\\me"', '"\\x"', '"\\x1b[0m"', '"\\u12"', '"\\u2026"', '"\\N{bogus}"', '"\\"', '"a\\nb"', '"\\d+\\.\\d+"', '"%s"', '"{0}"', '"{"', '"\\U0001"',
-           '"\\777"', '"\\"x"']
+           '"\\777"', '"\\"x"',
+           # wildcards over the labels of enum arguments
+           't*', '*ouch', 'p*', '*o*', '*e*', '*_*', 'k*d']
 
 
 def gen_structured_matcher(d):
@@ -247,6 +249,7 @@ COMMAND_WORDS = ['help', 'list', 'filter', 'breakpoint', 'matcher', 'connection'
 
 class Commands(Stage):
     name = 'commands'
+    long_session = False
 
     def examples(self, tier):
         return 1500 if tier == 'quick' else 14 * 15000
@@ -260,6 +263,15 @@ class Commands(Stage):
             specs.append(dict(conn=tag, t_us=specs[-1]['t_us'] + 1000, sent=True, iface='xdg_toplevel', id=900 + d.int(0, 3), name=d.choice(['set_title', 'set_app_id']),
                               args=[['str', d.choice(['editor', 'org.gnome.gedit', 'a b', 'x'])]]))
         cmds = []
+        if d.chance(0.12):
+            # a bitfield argument carrying named bits and bits the descriptions do not know, and wildcards over its labels
+            t0 = specs[-1]['t_us'] if specs else 0
+            tag = specs[-1]['conn'] if specs else None
+            specs = list(specs) + [
+                dict(conn=tag, t_us=t0 + 1000, sent=True, iface='wl_display', id=1, name='get_registry', args=[['new', 'wl_registry', 700]]),
+                dict(conn=tag, t_us=t0 + 2000, sent=True, iface='wl_registry', id=700, name='bind', args=[['uint', 3], ['str', 'wl_seat'], ['uint', 7], ['new', None, 701]]),
+                dict(conn=tag, t_us=t0 + 3000, sent=False, iface='wl_seat', id=701, name='capabilities', args=[['uint', d.choice([3, 11, 8, 15, 0x80000003, 0])]])]
+            cmds.append(d.choice(['list ', 'filter ', 'breakpoint ', 'list * ! ']) + d.choice(['(t*)', '(*ouch)', '.capabilities(*o*)', '(capabilities=k*)', '(*8*)', '([p*, t*])']))
         for _ in range(d.int(1, 5)):
             k = d.int(0, 12)
             if k == 12:
@@ -280,12 +292,21 @@ class Commands(Stage):
             else:
                 c = d.text(string.printable.replace('\n', '').replace('\r', '') + 'éλ', 0, 40)
             cmds.append(c.replace('\n', ' ').replace('\r', ' '))
-        return dict(specs=specs, cmds=cmds, selected=d.choice([None, 'A']), color=d.chance(0.2))
+        template = None
+        if self.long_session:
+            # a long session behind the commands: an id through more than 702 incarnations (three letters), thousands of messages
+            template = histgen.gen_long_template(d)
+            template['cycles'] = d.int(703, 760)
+            x = template['lanes'][0]['id']
+            cmds = ['list * ~ 3', 'list %d%s' % (x, d.choice(['aaa', 'aab', 'zz', 'a'])), 'list ~ 5000', 'connection'] + cmds
+        return dict(specs=specs, cmds=cmds, selected=d.choice([None, 'A']), color=d.chance(0.2), template=template)
 
     def execute(self, case):
         res = Result()
-        s = session.Session(color=case.get('color', False))
-        s.run([['line', wire.render(m, 'new')] for m in case['specs']])
+        # (a long session is loaded behind a filter that shows next to nothing, as one does with long logs)
+        s = session.Session(color=case.get('color', False), filter_text='.get_registry' if case.get('template') else None)
+        specs = histgen.expand_long(case['template']) if case.get('template') else case['specs']
+        s.run([['line', wire.render(m, 'new')] for m in specs])
         if case.get('selected'):
             s.ctl.process_command('connection ' + case['selected'])
         state = []
@@ -305,8 +326,19 @@ class Commands(Stage):
                 res.bad('command-without-output-or-error', '%r produced neither output nor an error line' % c)
         res.nontrivial = any(len(c.strip()) > 3 for c in case['cmds'])
         res.label('with-history' if case['specs'] else 'empty-session')
+        if case.get('template'): res.label('long-session-behind-the-commands')
         res.sample = case['cmds']
         return res
+
+
+class LongSessionCommands(Commands):
+    """the same commands after a session of thousands of messages (an id through more than 702 incarnations) was loaded behind a
+    filter that shows next to nothing"""
+    name = 'long-session-commands'
+    long_session = True
+
+    def examples(self, tier):
+        return 6 if tier == 'quick' else 14 * 8
 
 
 BYTE_TOKENS = [b'\xff', b'\xfe\xff', b'\x00', b'\r', b'\r\n', b'\xc3', b'\xe2\x82', b'\xf0\x9f\x98', b'\x80', b'\xed\xa0\x80', b'\x1b[31m', b'\n\n', b'\x7f', b'\xc0\xaf']
@@ -543,7 +575,7 @@ class C18(Prop):
     assumptions = ['a slow input is inconclusive, never a violation', 'LC_ALL=C.UTF-8',
                    'internal errors that the line loop catches, prints and survives are counted (counters internal-error-printed-and-survived:*) but are '
                    'not violations of the statement (the input is consumed to the end and every connection is closed)']
-    stages = [Lines(), Matchers(), Commands(), Bytes(), WrongFile(), Fuzz()]
+    stages = [Lines(), Matchers(), Commands(), LongSessionCommands(), Bytes(), WrongFile(), Fuzz()]
 
 
 PROP = C18()
